@@ -534,6 +534,8 @@ def pred_unary(c, r, fail):
         fail('%s changed the mask' % c['op'])
     if c['op'] == 'reverse' and o['mask'] != a['mask'][::-1]:
         fail('reverse_array: mask is not mirrored')
+    if c['op'] == 'reverse' and o['data'] != a['data'][::-1]:
+        fail('reverse_array: values are not mirrored')
 
 def pred_ll(c, r, fail):
     m = r['model_in']; d = r['data_in']
@@ -558,31 +560,81 @@ def run(ctx):
                 'operator methods (method call or operator syntax; scalar / numpy scalar / ndarray / masked array / Spectrum operand, '
                 'equal or mixed folding), unary ops and views, basic slicing, ll / ll_multinom; d = 1..5, axis lengths 1..14, even and '
                 'odd total sample size, random masks (densities 0..0.85, symmetric or not), labels, extrap_x; all from one PRNG; '
-                'distinct = distinct (kind, op, shape, data, masks, flags); non-trivial = more than 2 entries')
+                'distinct = distinct (kind, op, shape, data, masks, flags); non-trivial = more than 2 entries; '
+                'PLUS on every run the systematic stream layouts (c09_layouts.py): fixed base inputs d = 1..5 x both parities handed to '
+                'fold / unfold / reverse_array / apply_anc_state_misid / make_anc_state_misid_func / the 21 operator methods / slicing / '
+                'll / ll_multinom in every accepted spelling (Fortran-ordered, transposed, reorder_pops, swapaxes, strided, negatively '
+                'strided, lists, int / float32 data, int mask, MaskedArray or no mask; p and parameter vectors in every numeric type and '
+                'container), compared with the C-ordered float64 spelling, called twice, caller objects unchanged')
     ctx.assumptions += ['float64 results are compared with exact rational evaluation at 1e-11 relative to the largest entry, only where unmasked',
                         'Qln is a rational approximation with relative error < 2^-100 (likelihood cases only); lgamma at integer counts is a sum of logarithms',
                         'numpy element-wise ufuncs (+ - * / // **), basic slicing and masked-array views are the platform; floor division and power are evaluated on Q only for non-zero divisors / integer exponents']
     ctx.trusted += ['numpy.ma semantics (mask_or, views, __array_finalize__/_update_from) are covered by execution only']
     translator_obligations(ctx)
+    broken = [o['name'] for o in ctx.obligations if not o['ok'] and o.get('kind') == 'translator']
     cases = gen_cases(ctx)
+    # stream 'layouts' (c09_layouts.py): every entry point in every accepted spelling, every run; a broken source
+    # obligation starts the targeted search: the same stream at thorough size plus random shapes
+    import sys as _sys
+    from harness.props import c09_layouts
+    c09 = _sys.modules[__name__]
+    cases += c09_layouts.gen(ctx, c09, len(cases), reps=ctx.pick(1, 3))
     if ctx.replay:
         rp = json.load(open(ctx.replay))
         if rp.get('input') and 'case' in rp['input']:
-            c = rp['input']['case']; c['id'] = 0
-            cases = [c]
+            c = rp['input']['case']
+            if c.get('stream') == 'layouts' and rp['input'].get('canonical_case'):
+                cases = [rp['input']['canonical_case'], c]
+            else:
+                c['id'] = 0
+                cases = [c]
     res = lib.run_impl('c09_impl.py', cases, timeout=1800)
     byid = {r['id']: r for r in res}
     exprs = []; meta = {}
     failed_pred = set()
     kinds_seen = set()
     def coq(c, what, text):
+        if c.get('nocoq'):
+            return
         n = len(exprs); exprs.append((n, text)); meta[n] = (c, what)
+    lay_reported = {}
+    case_by_id = {c['id']: c for c in cases}
+    def lay_fail(c, r, msg):
+        failed_pred.add(c['id'])
+        key = (c['entry'], tuple(c['argspell']), msg.split(':')[1][:40] if ':' in msg else msg[:40])
+        lay_reported[key] = lay_reported.get(key, 0) + 1
+        if lay_reported[key] <= 2 and len(lay_reported) <= 40:
+            grp = byid.get(c.get('group'))
+            ctx.violation('layouts %s' % msg, data={'case': c, 'impl': r, 'canonical_case': case_by_id.get(c.get('group')), 'canonical_impl': grp})
+    discover = {} if os.environ.get('C09_LAYOUTS_DISCOVER') else None
+    lay_ran, lay_exercised = c09_layouts.compare(ctx, cases, byid, lay_fail, discover)
+    if broken and not lay_reported and not ctx.replay:
+        # targeted search: a source obligation of the mirror / fold / unfold / misidentification lines no longer checks and the
+        # systematic list found nothing -> the same stream on random shapes, twice over, before anything is reported without input
+        ctx.count('targeted search after broken obligation')
+        extra = c09_layouts.gen(ctx, c09, len(cases), reps=2, random_shapes=True)
+        for r_ in lib.run_impl('c09_impl.py', extra, timeout=1800):
+            byid[r_['id']] = r_
+        for c_ in extra:
+            case_by_id[c_['id']] = c_
+        ran2, ex2 = c09_layouts.compare(ctx, extra, byid, lay_fail, discover)
+        lay_ran |= ran2; lay_exercised |= ex2
+        cases += extra
+    if discover is not None:
+        with open(os.environ['C09_LAYOUTS_DISCOVER'], 'w') as f:
+            for k_ in sorted(discover):
+                f.write('%r: %r\n' % (k_, sorted(discover[k_])))
+    if not ctx.replay:
+        c09_layouts.coverage(ctx, lay_exercised)
     for c in cases:
         r = byid[c['id']]
         k = c['kind']
+        if c.get('stream') == 'layouts' and c['id'] not in lay_ran:
+            continue            # n/a, rejected or differently-built spelling: handled (counted / reported) by c09_layouts.compare
         def fail(msg, c=c, r=r):
             failed_pred.add(c['id'])
-            ctx.violation('%s: %s' % (c['kind'] + ('/' + c['op'] if 'op' in c else ''), msg), data={'case': c, 'impl': r})
+            tag = ' [%s=%s]' % tuple(c['argspell']) if c.get('stream') == 'layouts' else ''
+            ctx.violation('%s%s: %s' % (c['kind'] + ('/' + c['op'] if 'op' in c else ''), tag, msg), data={'case': c, 'impl': r})
         if 'crash' in r:
             ctx.obligation('case %d (%s) ran' % (c['id'], k), False, 'correspondence', r['crash'])
             fail('implementation driver crashed: ' + r['crash'])
@@ -667,7 +719,8 @@ def run(ctx):
             coq(c, 'slice', 'CSlice %s %s %s' % (coq_sel(c['sel'], shape), coq_spec(a_in), coq_spec(r['r'])))
         elif k == 'unary':
             kinds_seen.add('unary-' + c['op'])
-            pred_unary(c, r, fail)
+            if c['op'] != 'reverse_ndarray':        # (plain arrays: judged by c09_layouts.compare)
+                pred_unary(c, r, fail)
         elif k == 'll':
             kinds_seen.add('ll-%s-%s%s' % ('multinom' if c['multinom'] else 'poisson', 'f' if a_in['folded'] else 'u', 'f' if r['data_in']['folded'] else 'u'))
             pred_ll(c, r, fail)
